@@ -566,12 +566,16 @@ pub(super) fn apply_label_overlay_to_rows<S: GraphSnapshot>(
                     current_labels.retain(|existing| !labels.iter().any(|label| label == existing));
                 }
 
-                let properties = snapshot
-                    .node_properties(node_id)
-                    .unwrap_or_default()
-                    .iter()
-                    .map(|(k, v)| (k.clone(), convert_api_property_to_value(v)))
-                    .collect();
+                // Keep the properties an earlier clause of this statement has already put on the row.
+                let properties = match row.get(var) {
+                    Some(Value::Node(node)) => node.properties.clone(),
+                    _ => snapshot
+                        .node_properties(node_id)
+                        .unwrap_or_default()
+                        .iter()
+                        .map(|(k, v)| (k.clone(), convert_api_property_to_value(v)))
+                        .collect(),
+                };
 
                 row = row.with(
                     var.clone(),
